@@ -120,6 +120,21 @@ def gen(rng, tier, run):
         if flags:
             a, b = rng.choice(flags)
             off = rng.randrange(a, b + 1)
+    if rng.random() < 0.12:
+        # inside the number of a line the scanner takes numbers from (batch counts, task counts, times); listings of
+        # parallel runs (other code paths of the scanner) half of the time
+        para = [n for n in small if b'number of tasks' in files[n]['data'][:20000]]
+        if para and rng.random() < 0.5:
+            name = rng.choice(para)
+            info = files[name]
+        key = rng.choice([b'number of batches used', b'batch number', b'number of tasks', b'time (s)'])
+        keyed = [(a, b) for a, b in info['spans'] if key in info['data'][a:b]]
+        if keyed:
+            a, b = rng.choice(keyed)
+            pos = info['data'].find(key, a) + len(key)
+            off = rng.randrange(min(pos, b), b + 1)
+        else:
+            off = rng.randrange(0, len(info['data']) + 1)
     if rng.random() < 0.05:
         data = synth(info['data'], 'fatal')
         off = rng.randrange(max(0, len(data) - len(FATAL_BLOCK) - 3), len(data) + 1) if rng.random() < 0.85 \
